@@ -62,7 +62,7 @@ var documented = map[string][]string{
 type c14Cell struct {
 	Method string // Publish PublishRetained Subscribe SubscribeLimitAtMostOnce SubscribeLimitAtLeastOnce Unsubscribe Ping Disconnect PublishAtLeastOnce … PublishExactlyOnceRetained
 	State  string // pending-ok pending-fail down online closed
-	Place  string // none write-fail-0 write-fail-mid write-fail-last write-expire-0 response-lost response-malformed response-illegal-code response-failed close-during-write close-awaiting close-error
+	Place  string // none write-fail-0 write-fail-mid write-fail-last write-expire-0 response-lost response-malformed response-illegal-code response-failed close-during-write close-awaiting close-error close-while-pending
 	Quit   string // nil closed-before during-write awaiting-response
 	Arg    string // valid invalid
 	Store  bool   // Save fails (persisted)
@@ -110,6 +110,10 @@ func genCell(r *rand.Rand) c14Cell {
 	}
 	if c.State != "online" && (c.Quit == "during-write" || c.Quit == "awaiting-response") {
 		c.Quit = "closed-before"
+	}
+	if (c.State == "pending-ok" || c.State == "pending-fail") && c.Quit == "nil" && kind != "Disconnect" && r.Intn(3) == 0 {
+		// the client gets closed while the request waits for the connect attempt
+		c.Place = "close-while-pending"
 	}
 	if c.State == "online" && c.Quit == "nil" {
 		places := []string{"none", "write-fail-0", "write-fail-mid", "write-fail-last", "write-expire-0", "close-during-write"}
@@ -400,6 +404,14 @@ func runCell(c *run.Ctx, cell c14Cell) {
 		if call.Returned() && kind != "Persisted" && kind != "Disconnect" && cell.Quit == "nil" && cell.Arg == "valid" {
 			c.Violate("request-did-not-await-connect", fmt.Sprintf("%s returned %v while the first connect attempt was still in progress", cell.Method, call.Err), detail())
 		}
+		if cell.Place == "close-while-pending" {
+			closed := make(chan struct{})
+			go func() { cl.Close(); close(closed) }()
+			select {
+			case <-closed:
+			case <-time.After(sim.StepTimeout):
+			}
+		}
 		w.Open("dial")
 	}
 	// let the read routine serve responses; a retry of the connect must not
@@ -544,6 +556,8 @@ func runCell(c *run.Ctx, cell c14Cell) {
 		case cell.Arg == "invalid":
 			want = "IsDeny"
 		case cell.State == "closed" && cell.Quit == "nil":
+			want = "ErrClosed"
+		case cell.Place == "close-while-pending" && kind != "Persisted":
 			want = "ErrClosed"
 		case cell.Quit == "nil" && (cell.State == "down" || cell.State == "pending-fail"):
 			want = "ErrDown"
